@@ -23,6 +23,8 @@ import Mathlib.Tactic.Ring
 
 set_option linter.unusedSimpArgs false
 set_option linter.unusedVariables false
+set_option linter.unreachableTactic false
+set_option linter.unusedTactic false
 set_option linter.unnecessarySeqFocus false
 
 namespace Pandora.C02Census
@@ -112,7 +114,11 @@ theorem sum_pop2_toDigits4 (n : Nat) : ∀ x, ((toDigits4 n x).map pop2).sum = b
 theorem popcount32b_generated_eq_model : KernelsCensus.popcount32b = MC.popcount32b := by
   funext x
   unfold KernelsCensus.popcount32b MC.popcount32b
-  rfl
+  -- the same text, or the same up to the order of the operands of `+` / `&`
+  first
+    | rfl
+    | (simp only [Nat.and_comm, Nat.add_comm]; done)
+    | (simp only []; ac_rfl)
 
 /-- **`popcount32b` of the source = number of set bits, for every 32-bit argument** -/
 theorem popcount32b_correct (x : Nat) (hx : x < 2 ^ 32) : KernelsCensus.popcount32b x = bitCount 32 x := by
